@@ -8,6 +8,7 @@ import (
 
 	"verif/mc/harness"
 	"verif/mc/mcrt"
+	"verif/props"
 
 	"github.com/goblimey/go-ntrip/apps/appcore"
 	"github.com/goblimey/go-ntrip/jsonconfig"
@@ -17,7 +18,7 @@ import (
 func init() {
 	Props["C09"] = &harness.Prop{
 		ID:             "C09",
-		Rule:           "AppCore.HandleMessagesUntilEOF on the main thread with instrumented appcore, file_handler, rtcm/handler and rtcm/pushback; 11 streams (empty, x, D3, junk, frame, junk+frame, frame+junk+frame, frame+truncated, bad-CRC frame+frame, a 1005 and a 1077 frame) x 6 consumer lists ([unbuffered], [buffer 1], [unbuffered,nil,unbuffered], [buffer 2,unbuffered], [nil,nil], [buffer 1,buffer 1,unbuffered]) x every chunking of the source (each underlying Read hands over 1 byte, 2 bytes or everything) x all interleavings of reader, framing, fan-out and consumer threads (state-key pruning; bounded by preemptions only where the budget cuts the full pass). Oracle: every consumer receives exactly what sequential framing by the implementation delivers; the call returns 0; every helper goroutine has finished; no panic (double close). Non-trivial = distinct schedule trace",
+		Rule:           "AppCore.HandleMessagesUntilEOF on the main thread with instrumented appcore, file_handler, rtcm/handler and rtcm/pushback; 11 streams (empty, x, D3, junk, frame, junk+frame, frame+junk+frame, frame+truncated, bad-CRC frame+frame, a 1005 and a 1077 frame) x 6 consumer lists ([unbuffered], [buffer 1], [unbuffered,nil,unbuffered], [buffer 2,unbuffered], [nil,nil], [buffer 1,buffer 1,unbuffered]) x every chunking of the source (each underlying Read hands over 1 byte, 2 bytes or everything) ; for three streams also a SECOND call of the same AppCore on a further input (as after a reconnect); x all interleavings of reader, framing, fan-out and consumer threads (state-key pruning; bounded by preemptions only where the budget cuts the full pass). Oracle: every consumer receives exactly what sequential framing by the implementation delivers; the call returns 0; every helper goroutine has finished; no panic (double close). Non-trivial = distinct schedule trace",
 		Assumptions:    []string{"scheduling points are channel operations, goroutine creation and the source's Read; threads share memory only through channels (message values are copied by the channel send, their RawData slices are only read), so state-key pruning is sound", "the clause 'no data race' is outside what a cooperative scheduler can observe; it is touched only by the auxiliary free-running -race pass"},
 		Scenarios:      c09Scenarios,
 		QuickBudget:    60 * time.Second,
@@ -30,6 +31,7 @@ type c09Obs struct {
 	ret      int
 	returned bool
 	src      *chunkSrc
+	src2     *chunkSrc
 }
 
 func c09Scenarios(tier string) []*mcrt.Scenario {
@@ -51,68 +53,98 @@ func c09Scenarios(tier string) []*mcrt.Scenario {
 	var scs []*mcrt.Scenario
 	for _, sn := range names {
 		for _, l := range lists {
-			stream, l := streams[sn], l
-			if tier != "thorough" && len(l.caps) == 3 && l.caps[1] >= 0 && len(stream) > 9 {
-				continue // three live consumers on multi-message streams: thorough tier only
+			for _, second := range []string{"", "frame"} {
+				stream, l, second := streams[sn], l, second
+				if second != "" && !(sn == "frame" || sn == "junk+frame" || sn == "x" || (tier == "thorough" && sn == "frame+truncated")) {
+					continue
+				}
+				stream2 := streams[second]
+				if tier != "thorough" && len(l.caps) == 3 && l.caps[1] >= 0 && len(stream) > 9 {
+					continue // three live consumers on multi-message streams: thorough tier only
+				}
+				if second != "" && len(l.caps) == 3 && l.caps[1] >= 0 && tier != "thorough" {
+					continue
+				}
+				// quick: the unbounded pass only where it finishes in seconds
+				full := tier == "thorough" || len(stream) <= 15
+				scs = append(scs, &mcrt.Scenario{
+					Name:  fmt.Sprintf("stream=%s%s consumers=%s", sn, map[bool]string{true: " then-second-call=" + second, false: ""}[second != ""], l.name),
+					Bound: bound, Horizon: 20000, Prune: true, Full: full,
+					Body: func(x *mcrt.X) {
+						obs := &c09Obs{src: &chunkSrc{data: stream}}
+						x.Data = obs
+						var chans []chan handler.Message
+						for i, c := range l.caps {
+							if c < 0 {
+								chans = append(chans, nil)
+								continue
+							}
+							ch := make(chan handler.Message, c)
+							chans = append(chans, ch)
+							log := &consumerLog{}
+							obs.logs = append(obs.logs, log)
+							consume(fmt.Sprintf("consumer%d", i), ch, log)
+						}
+						// the harness keeps its own list: the consumer list handed to AppCore
+						// belongs to AppCore from here on
+						own := append([]chan handler.Message{}, chans...)
+						core := appcore.New(&jsonconfig.Config{}, chans)
+						obs.ret = core.HandleMessagesUntilEOF(T0, bufio.NewReader(obs.src))
+						if second != "" {
+							// the same AppCore handles the next input, as AppCore.HandleMessages
+							// does after end of file or a reconnect
+							obs.src2 = &chunkSrc{data: stream2}
+							obs.ret += core.HandleMessagesUntilEOF(T0, bufio.NewReader(obs.src2))
+						}
+						obs.returned = true
+						// as the applications do after the call returns
+						for _, ch := range own {
+							if ch != nil {
+								mcrt.Close(ch)
+							}
+						}
+					},
+					Check: func(x *mcrt.X) *mcrt.Failure {
+						obs := x.Data.(*c09Obs)
+						if len(x.Panics) > 0 {
+							p := x.Panics[0]
+							return &mcrt.Failure{Kind: "panic in " + p.Thread + ": " + firstLine(p.Value) + " @" + p.Site, Detail: p.Stack}
+						}
+						if !obs.returned {
+							return &mcrt.Failure{Kind: "call-did-not-return end=" + x.End, Detail: fmt.Sprint(x.Blocked)}
+						}
+						if x.End != mcrt.EndAllDone {
+							return &mcrt.Failure{Kind: "helper-goroutines-left-blocked", Detail: fmt.Sprint(x.Blocked)}
+						}
+						if obs.ret != 0 {
+							return &mcrt.Failure{Kind: "unexpected-return-value", Detail: fmt.Sprint(obs.ret)}
+						}
+						for i, log := range obs.logs {
+							msgs := log.msgs
+							if second != "" {
+								// first the framing of the first input, then that of the second
+								want1, _ := props.SequentialFraming(stream)
+								if len(msgs) < len(want1) {
+									return &mcrt.Failure{Kind: "consumer-sequence-differs-from-sequential-framing", Detail: fmt.Sprintf("consumer %d got %d messages over two calls", i, len(msgs))}
+								}
+								if ok, d := sameAsSequential(msgs[len(want1):], stream2); !ok {
+									return &mcrt.Failure{Kind: "consumer-sequence-differs-from-sequential-framing on a second call of the same AppCore", Detail: fmt.Sprintf("consumer %d: %s", i, d)}
+								}
+								msgs = msgs[:len(want1)]
+							}
+							if ok, d := sameAsSequential(msgs, stream); !ok {
+								return &mcrt.Failure{Kind: "consumer-sequence-differs-from-sequential-framing", Detail: fmt.Sprintf("consumer %d: %s", i, d)}
+							}
+						}
+						n := 0
+						if len(obs.logs) > 0 {
+							n = len(obs.logs[0].msgs)
+						}
+						harness.Outcome(fmt.Sprintf("messages=%d reads=%d", n, min(obs.src.reads, 9)))
+						return nil
+					},
+				})
 			}
-			// quick: the unbounded pass only where it finishes in seconds
-			full := tier == "thorough" || len(stream) <= 15
-			scs = append(scs, &mcrt.Scenario{
-				Name:  fmt.Sprintf("stream=%s consumers=%s", sn, l.name),
-				Bound: bound, Horizon: 20000, Prune: true, Full: full,
-				Body: func(x *mcrt.X) {
-					obs := &c09Obs{src: &chunkSrc{data: stream}}
-					x.Data = obs
-					var chans []chan handler.Message
-					for i, c := range l.caps {
-						if c < 0 {
-							chans = append(chans, nil)
-							continue
-						}
-						ch := make(chan handler.Message, c)
-						chans = append(chans, ch)
-						log := &consumerLog{}
-						obs.logs = append(obs.logs, log)
-						consume(fmt.Sprintf("consumer%d", i), ch, log)
-					}
-					core := appcore.New(&jsonconfig.Config{}, chans)
-					obs.ret = core.HandleMessagesUntilEOF(T0, bufio.NewReader(obs.src))
-					obs.returned = true
-					// as the applications do after the call returns
-					for _, ch := range chans {
-						if ch != nil {
-							mcrt.Close(ch)
-						}
-					}
-				},
-				Check: func(x *mcrt.X) *mcrt.Failure {
-					obs := x.Data.(*c09Obs)
-					if len(x.Panics) > 0 {
-						p := x.Panics[0]
-						return &mcrt.Failure{Kind: "panic in " + p.Thread + ": " + firstLine(p.Value) + " @" + p.Site, Detail: p.Stack}
-					}
-					if !obs.returned {
-						return &mcrt.Failure{Kind: "call-did-not-return end=" + x.End, Detail: fmt.Sprint(x.Blocked)}
-					}
-					if x.End != mcrt.EndAllDone {
-						return &mcrt.Failure{Kind: "helper-goroutines-left-blocked", Detail: fmt.Sprint(x.Blocked)}
-					}
-					if obs.ret != 0 {
-						return &mcrt.Failure{Kind: "unexpected-return-value", Detail: fmt.Sprint(obs.ret)}
-					}
-					for i, log := range obs.logs {
-						if ok, d := sameAsSequential(log.msgs, stream); !ok {
-							return &mcrt.Failure{Kind: "consumer-sequence-differs-from-sequential-framing", Detail: fmt.Sprintf("consumer %d: %s", i, d)}
-						}
-					}
-					n := 0
-					if len(obs.logs) > 0 {
-						n = len(obs.logs[0].msgs)
-					}
-					harness.Outcome(fmt.Sprintf("messages=%d reads=%d", n, min(obs.src.reads, 9)))
-					return nil
-				},
-			})
 		}
 	}
 	return scs
